@@ -141,7 +141,7 @@ def multi_sibling_nested(v, depth=0):
 def run(ctx):
     runner.prove(ctx, MODULE, THEOREMS, FILES)
     cases = []
-    for s, w in valcases.schema_batch(ctx, ctx.n(80, 600), customs=True):
+    for s, w in valcases.scalar_corpus() + valcases.schema_batch(ctx, ctx.n(80, 600), customs=True):
         cases += valcases.value_cases(ctx, s, w, perturb=ctx.n(14, 40), zoo=ctx.n(2, 6), inject=ctx.n(6, 14))
     for c in cases:
         valcorr.run_real(c)
